@@ -16,7 +16,44 @@ theorem merge_equiv_toks (S : Schema) (s1 s2 m : Step) (d d1 d2 d' : Node)
     (h1 : S.apply s1 d = .ok d1) (h2 : S.apply s2 d1 = .ok d2)
     (hm : s1.merge s2 = some m) (h' : S.apply m d = .ok d') :
     ftoks d'.kids = ftoks d2.kids ∧ d'.sameMarkup d2 = true ∧ fsize d'.kids = fsize d2.kids := by
-  sorry
+  suffices hkey : ftoks d'.kids = ftoks d2.kids ∧ d'.sameMarkup d2 = true by
+    refine ⟨hkey.1, hkey.2, ?_⟩
+    rw [← ftoks_length, ← ftoks_length, hkey.1]
+  cases s1 <;> cases s2 <;> try (simp [Step.merge] at hm; done)
+  · -- replace / replace
+    rename_i f t sl st f' t' sl' st'
+    have hst : st = false ∧ st' = false := by
+      cases st <;> cases st' <;> simp [Step.merge] at hm ⊢
+    obtain ⟨rfl, rfl⟩ := hst
+    exact merge_replace_toks S d d1 d2 d' f t f' t' sl sl' m h1 h2 hm h'
+  · -- addMark / addMark
+    rename_i f t mk f' t' mk'
+    simp only [Step.merge] at hm
+    split at hm
+    · rename_i hc
+      simp only [Bool.and_eq_true, decide_eq_true_eq, ge_iff_le] at hc
+      obtain ⟨⟨rfl, hc2⟩, hc3⟩ := hc
+      simp only [Option.some.injEq] at hm; subst hm
+      obtain ⟨e1, hs1⟩ := apply_addMark_toks S d d1 f t mk' h1
+      obtain ⟨e2, hs2⟩ := apply_addMark_toks S d1 d2 f' t' mk' h2
+      obtain ⟨e', hs'⟩ := apply_addMark_toks S d d' _ _ mk' h'
+      refine ⟨?_, sameMarkup_join hs' (sameMarkup_trans hs2 hs1)⟩
+      rw [e', e2, e1, sameMarkup_tyOf S hs1, addMarkToks_merge S mk' f t f' t' _ _ hc2 hc3]
+    · simp at hm
+  · -- removeMark / removeMark
+    rename_i f t mk f' t' mk'
+    simp only [Step.merge] at hm
+    split at hm
+    · rename_i hc
+      simp only [Bool.and_eq_true, decide_eq_true_eq, ge_iff_le] at hc
+      obtain ⟨⟨rfl, hc2⟩, hc3⟩ := hc
+      simp only [Option.some.injEq] at hm; subst hm
+      obtain ⟨e1, hs1⟩ := apply_removeMark_toks S d d1 f t mk' h1
+      obtain ⟨e2, hs2⟩ := apply_removeMark_toks S d1 d2 f' t' mk' h2
+      obtain ⟨e', hs'⟩ := apply_removeMark_toks S d d' _ _ mk' h'
+      refine ⟨?_, sameMarkup_join hs' (sameMarkup_trans hs2 hs1)⟩
+      rw [e', e2, e1, sameMarkup_tyOf S hs1, removeMarkToks_merge S mk' f t f' t' _ _ hc2 hc3]
+    · simp at hm
 
 /-- **document-level equivalence** for normal-form results (every library operation returns normal
     form: `replace_norm`) -/
@@ -24,7 +61,42 @@ theorem merge_equiv (S : Schema) (s1 s2 m : Step) (d d1 d2 d' : Node)
     (h1 : S.apply s1 d = .ok d1) (h2 : S.apply s2 d1 = .ok d2)
     (hm : s1.merge s2 = some m) (h' : S.apply m d = .ok d')
     (hn' : fnorm d'.kids = true) (hn2 : fnorm d2.kids = true) : d' = d2 := by
-  sorry
+  obtain ⟨ht, hs, _⟩ := merge_equiv_toks S s1 s2 m d d1 d2 d' h1 h2 hm h'
+  have hk : d'.kids = d2.kids := ftoks_inj _ _ hn' hn2 ht
+  -- the original document is an element node, hence so are the results
+  have hd : ∃ ty a mk k, d = .elem ty a mk k := by
+    cases s1 <;> cases s2 <;> try (simp [Step.merge] at hm; done)
+    · exact fromReplace_elem S d d1 _ _ _ (apply_replace_from _ _ _ _ _ _ _ h1)
+    · exact apply_addMark_elem S d d1 _ _ _ h1
+    · exact apply_removeMark_elem S d d1 _ _ _ h1
+  obtain ⟨ty, a, mk, k, rfl⟩ := hd
+  have hs' : d'.sameMarkup (.elem ty a mk k) = true := by
+    cases s1 <;> cases s2 <;> try (simp [Step.merge] at hm; done)
+    · rename_i f t sl st f' t' sl' st'
+      have hst : st = false ∧ st' = false := by
+        cases st <;> cases st' <;> simp [Step.merge] at hm ⊢
+      obtain ⟨rfl, rfl⟩ := hst
+      simp only [Step.merge, Bool.or_self, Bool.false_eq_true, if_false] at hm
+      split at hm
+      · simp only [Option.some.injEq] at hm; subst hm
+        exact (apply_replace_toks S _ d' _ _ _ _ h').2.2.2
+      · split at hm
+        · simp only [Option.some.injEq] at hm; subst hm
+          exact (apply_replace_toks S _ d' _ _ _ _ h').2.2.2
+        · simp at hm
+    · simp only [Step.merge] at hm
+      split at hm
+      · simp only [Option.some.injEq] at hm; subst hm
+        exact (apply_addMark_toks S _ d' _ _ _ h').2
+      · simp at hm
+    · simp only [Step.merge] at hm
+      split at hm
+      · simp only [Option.some.injEq] at hm; subst hm
+        exact (apply_removeMark_toks S _ d' _ _ _ h').2
+      · simp at hm
+  have e' := sameMarkup_elem_eq rfl hs'
+  have e2 := sameMarkup_elem_eq rfl (sameMarkup_trans (sameMarkup_symm hs) hs')
+  rw [e', e2, hk]
 
 /-- what merges: only replace/replace (non-structure, adjacent, closed at the seam) and equal-mark
     add/add, remove/remove with touching or overlapping ranges; the merged step covers the union -/
@@ -33,6 +105,39 @@ theorem merge_shape (s1 s2 m : Step) (hm : s1.merge s2 = some m) :
         (m = .replace f (t + (t' - f')) sl'' false ∨ m = .replace f' t sl'' false)) ∨
     (∃ f t f' t' mk, s1 = .addMark f t mk ∧ s2 = .addMark f' t' mk ∧ m = .addMark (min f f') (max t t') mk ∧ f ≤ t' ∧ f' ≤ t) ∨
     (∃ f t f' t' mk, s1 = .removeMark f t mk ∧ s2 = .removeMark f' t' mk ∧ m = .removeMark (min f f') (max t t') mk ∧ f ≤ t' ∧ f' ≤ t) := by
-  sorry
+  cases s1 <;> cases s2 <;> try (simp [Step.merge] at hm; done)
+  · rename_i f t sl st f' t' sl' st'
+    have hst : st = false ∧ st' = false := by
+      cases st <;> cases st' <;> simp [Step.merge] at hm ⊢
+    obtain ⟨rfl, rfl⟩ := hst
+    left
+    simp only [Step.merge, Bool.or_self, Bool.false_eq_true, if_false] at hm
+    split at hm
+    · simp only [Option.some.injEq] at hm
+      exact ⟨f, t, sl, f', t', sl', _, rfl, rfl, Or.inl hm.symm⟩
+    · split at hm
+      · simp only [Option.some.injEq] at hm
+        exact ⟨f, t, sl, f', t', sl', _, rfl, rfl, Or.inr hm.symm⟩
+      · simp at hm
+  · rename_i f t mk f' t' mk'
+    right; left
+    simp only [Step.merge] at hm
+    split at hm
+    · rename_i hc
+      simp only [Bool.and_eq_true, decide_eq_true_eq, ge_iff_le] at hc
+      obtain ⟨⟨rfl, hc2⟩, hc3⟩ := hc
+      simp only [Option.some.injEq] at hm
+      exact ⟨f, t, f', t', mk', rfl, rfl, hm.symm, hc2, hc3⟩
+    · simp at hm
+  · rename_i f t mk f' t' mk'
+    right; right
+    simp only [Step.merge] at hm
+    split at hm
+    · rename_i hc
+      simp only [Bool.and_eq_true, decide_eq_true_eq, ge_iff_le] at hc
+      obtain ⟨⟨rfl, hc2⟩, hc3⟩ := hc
+      simp only [Option.some.injEq] at hm
+      exact ⟨f, t, f', t', mk', rfl, rfl, hm.symm, hc2, hc3⟩
+    · simp at hm
 
 end PM.C16
